@@ -9,7 +9,8 @@ THEOREMS = ['C17_derives_rename', 'C17_trees_rename', 'C17_trees_are_derivations
             'C17_remove_unused_is_reachability', 'C17_do_import', 'C17_import_is_inlining_partial', 'C17_no_capture',
             'C17_import_clash_is_error', 'C17_extend_is_alternative', 'C17_extend_keeps_alternatives',
             'C17_override_replaces', 'C17_template_is_substitution', 'C17_subst_no_capture',
-            'C17_instance_name_injective', 'C17_example', 'C17_template_label_refuted']
+            'C17_instance_name_injective', 'C17_template_label_renamed', 'C17_example',
+            'C17_template_label_example']
 GEN_DEPS = []
 RULE = ('random programs of 1-3 module files (plain / renamed / multi / nested %import, %override, %extend, templates with '
         'symbol, literal and nested-template arguments, same-named private rules and terminals in every module, '
@@ -352,7 +353,7 @@ def ref_load(prog, modname, rho, top, depth=0):
                          label=None, origin=body[1], module=modname)
             else:
                 d = dict(name=name, is_term=False, params=tuple(rho(p) for p in body[3]), prio=body[4], mods=body[1],
-                         alts=map_syms_alts(body[5], rho), label=body[2] if body[3] else None, origin=body[2],
+                         alts=map_syms_alts(body[5], rho), label=name if body[3] else None, origin=body[2],
                          module=modname)
             if name.startswith('__'):
                 raise SpecError('reserved')
@@ -1096,13 +1097,18 @@ def mangle_cases(rng, n):
 # exotic (fixed) corpus: known deviations from textual inlining, each with a stable key
 # ----------------------------------------------------------------------------------------------
 EXOTIC = [
-    # instances of an imported template are labelled with the template's unmangled name: the label
-    # clashes with the same-named local rule (by hand: m__f vs f)
-    dict(key='C17-T1:template_source-not-mangled',
+    # regression (lark fix bb8205d): instances of an imported template are labelled with the template's final
+    # name (m__f, or the alias), not with the unmangled name that clashes with the local rule f
+    dict(key=None,
          files={('m',): 'a: f{Y}\nf{t}: t t\nY: "y"\n'},
          main='start: a f\nf: "q"\n%import m.a\n',
          inlined='start: a f\nf: "q"\na: m__f{M__Y}\nm__f{m__t}: m__t m__t\nM__Y: "y"\n',
          labels={'M__Y': 'm__Y'}, text='yyq', parser='lalr'),
+    dict(key=None,
+         files={('m',): 'f{t}: t t\nY: "y"\n'},
+         main='start: g{Y} f\nf: "q"\n%import m.f -> g\n%import m.Y\n',
+         inlined='start: g{Y} f\nf: "q"\ng{t}: t t\nY: "y"\n',
+         labels={}, text='yyq', parser='lalr'),
     # %override of an imported terminal does not reach the imported terminals that refer to it
     # (%extend does, and %override of a rule does)
     dict(key='C17-T2:override-of-imported-terminal-not-seen-by-dependent-terminal',
@@ -1121,7 +1127,7 @@ EXOTIC = [
 
 
 def run_exotic(ctx, e):
-    d = os.path.join(ctx.scratch, 'exo_' + re.sub(r'\W', '_', e['key'])[:40])
+    d = os.path.join(ctx.scratch, 'exo_%d' % EXOTIC.index(e))
     write_program({p: t for p, t in e['files'].items()}, d)
     bad, _ = differential(e['files'], e['main'], e['inlined'], e['labels'], [e['text']], e['parser'], d)
     return bad
@@ -1264,7 +1270,7 @@ def correspond(ctx):
     # (2) exotic corpus ---------------------------------------------------------------------------------
     for e in EXOTIC:
         bad = run_exotic(ctx, e)
-        ctx.count('exotic', key=e['key'], nontrivial=True)
+        ctx.count('exotic', key=e['key'] or e['main'], nontrivial=True)
         for kind, t, a, b in bad[:1]:
             ctx.violation('inlining-differential:' + kind,
                           witness(e['files'], e['main'], e['inlined'], e['labels'], e['parser'], e['text']), True,
